@@ -73,6 +73,20 @@ type Address interface {
 	IsForNet(*chaincfg.Params) bool
 }
 
+// asciiToLower lower-cases the ASCII letters of s and leaves every other byte
+// alone.  strings.ToLower would also fold non-ASCII characters (for example
+// U+212A KELVIN SIGN) into ASCII letters, which are then accepted as part of
+// an address.
+func asciiToLower(s string) string {
+	b := []byte(s)
+	for i, c := range b {
+		if 'A' <= c && c <= 'Z' {
+			b[i] = c + ('a' - 'A')
+		}
+	}
+	return string(b)
+}
+
 // DecodeAddress decodes the string encoding of an address and returns
 // the Address if addr is a valid encoding for a known address type.
 //
@@ -89,7 +103,7 @@ func DecodeAddress(addr string, defaultNet *chaincfg.Params) (Address, error) {
 	// Add prefix if it does not exist, and try bch prefix first
 	addrWithPrefix := addr
 	if !strings.EqualFold(addr[:len(bchPrefix)+1], bchPrefix+":") && !strings.EqualFold(addr[:len(slpPrefix)+1], slpPrefix+":") {
-		addrWithPrefix = bchPrefix + ":" + strings.ToLower(addr) // so we don't mix cases
+		addrWithPrefix = bchPrefix + ":" + asciiToLower(addr) // so we don't mix cases
 	}
 
 	var cashaddrErr error
@@ -121,7 +135,7 @@ func DecodeAddress(addr string, defaultNet *chaincfg.Params) (Address, error) {
 		// try to decode with slp prefix instead
 		addrWithPrefix := addr
 		if !strings.EqualFold(addr[:len(bchPrefix)+1], bchPrefix+":") && !strings.EqualFold(addr[:len(slpPrefix)+1], slpPrefix+":") {
-			addrWithPrefix = slpPrefix + ":" + strings.ToLower(addr) // so we don't mix cases
+			addrWithPrefix = slpPrefix + ":" + asciiToLower(addr) // so we don't mix cases
 		}
 
 		// Switch on decoded length to determine the type.
